@@ -2,7 +2,8 @@
    KindInferProofs.v for the proof idea. *)
 From Coq Require Import List String Bool Arith Lia Permutation.
 Import ListNotations.
-From Dagrt Require Import Unify UnifyProofs KindOrder KindInfer KindInferProofs KindTableProofs.
+From Dagrt Require Import Unify UnifyProofs KindOrder KindInfer KindRegistryProofs KindInferProofs
+  KindTableProofs.
 Close Scope string_scope.
 Open Scope list_scope.
 
@@ -11,17 +12,53 @@ Section Finder.
   Hypothesis Hut : c_ut_int c = true.
   Hypothesis Harr : c_arr_int c = true.
 
-  Definition wf_item (it : qitem) : Prop := expr_ok (b_flat (snd it)) = true.
+  Definition wf_item (it : qitem) : Prop := stmt_ok (snd it) = true.
 
   Definition loops_closed (T : table) (p : string) (l : list string) : Prop :=
     forall i, In i l -> exists v, tfind T (key_of c p i) = Some v /\ kle (Some KInt) v.
+
+  (* every zipped (assignee, kind) is below the entry of the assignee *)
+  Fixpoint lhs_closed (T : table) (p : string) (xs : list string) (ks : list okind) : Prop :=
+    match xs, ks with
+    | x :: xs', k :: ks' =>
+        (exists v, tfind T (key_of c p x) = Some v /\ kle k v) /\ lhs_closed T p xs' ks'
+    | _, _ => True
+    end.
 
   (* T is a post-fixed point of statement `it` *)
   Definition stmt_closed (T : table) (it : qitem) : Prop :=
     loops_closed T (fst it) (b_loops (snd it)) /\
     (b_sub (snd it) = false ->
-     exists k v, infer c (lookup T (fst it)) (b_flat (snd it)) = IOk k
-                 /\ tfind T (key_of c (fst it) (b_lhs (snd it))) = Some v /\ kle k v).
+     exists ks, eval_work c (lookup T (fst it)) (snd it) = MOk ks
+                /\ lhs_closed T (fst it) (b_lhs (snd it)) ks).
+
+  (* ... or nothing can be said about it under T *)
+  Definition stmt_wclosed (T : table) (it : qitem) : Prop :=
+    loops_closed T (fst it) (b_loops (snd it)) /\
+    (b_sub (snd it) = false ->
+     eval_work c (lookup T (fst it)) (snd it) = MUnable \/
+     exists ks, eval_work c (lookup T (fst it)) (snd it) = MOk ks
+                /\ lhs_closed T (fst it) (b_lhs (snd it)) ks).
+
+  Lemma closed_wclosed : forall T it, stmt_closed T it -> stmt_wclosed T it.
+  Proof. intros T it [A B]. split; [assumption|]. intro H. right. apply B; assumption. Qed.
+
+  Lemma lhs_closed_le : forall T p xs ks ks', Forall2 kle ks ks' ->
+    lhs_closed T p xs ks' -> lhs_closed T p xs ks.
+  Proof.
+    intros T p xs. induction xs as [|x xs IH]; intros ks ks' H; [destruct ks; exact (fun _ => I)|].
+    destruct H as [|k k' ks ks' Hk H]; cbn; [auto|].
+    intros [[v [Ev Hv]] Hr]. split; [|eapply IH; eassumption].
+    exists v. split; [assumption|eapply kle_trans; eassumption].
+  Qed.
+
+  Lemma lhs_closed_mono : forall T L p xs ks, tle T L -> lhs_closed T p xs ks -> lhs_closed L p xs ks.
+  Proof.
+    intros T L p xs. induction xs as [|x xs IH]; intros ks Hle; [destruct ks; exact (fun _ => I)|].
+    destruct ks as [|k ks]; cbn; [auto|].
+    intros [[v [Ev Hv]] Hr]. split; [|apply IH; assumption].
+    destruct (Hle _ _ Ev) as [v' [Ev' Hv']]. exists v'. split; [assumption|eapply kle_trans; eassumption].
+  Qed.
 
   Definition pstep (st : tstate) (it : qitem) (st' : tstate) : Prop :=
     process c st it = PDone st' \/ process c st it = PDefer st' \/ process c st it = PProgress st'.
@@ -71,6 +108,54 @@ Section Finder.
       auto.
   Qed.
 
+  (* ---------------------------------------------------------------- the assignees of one statement *)
+
+  Lemma set_many_good : forall xs ks st p st', good c st -> Forall (fun k => k <> None) ks ->
+    set_many c st p xs ks = Ok st' -> good c st'.
+  Proof.
+    induction xs as [|x xs IH]; intros ks st p st' Hg Hk; cbn.
+    - intros [= <-]; assumption.
+    - destruct ks as [|k ks]; [intros [= <-]; assumption|].
+      destruct (tset c st p x k) as [st1|e] eqn:E; [|discriminate].
+      inversion Hk as [|? ? Hk1 Hk2]; subst.
+      apply IH; [|assumption]. eapply tset_good; eassumption.
+  Qed.
+
+  Lemma set_many_grows : forall xs ks st p st', good c st -> Forall (fun k => k <> None) ks ->
+    set_many c st p xs ks = Ok st' -> tle (tbl st) (tbl st').
+  Proof.
+    induction xs as [|x xs IH]; intros ks st p st' Hg Hk; cbn.
+    - intros [= <-]; apply tle_refl.
+    - destruct ks as [|k ks]; [intros [= <-]; apply tle_refl|].
+      destruct (tset c st p x k) as [st1|e] eqn:E; [|discriminate].
+      inversion Hk as [|? ? Hk1 Hk2]; subst.
+      intro H. eapply tle_trans; [eapply tset_grows; eassumption|].
+      eapply IH; [| |exact H]; [eapply tset_good; eassumption|assumption].
+  Qed.
+
+  Lemma set_many_below : forall xs ks st p L, tle (tbl st) L -> lhs_closed L p xs ks ->
+    exists st', set_many c st p xs ks = Ok st' /\ tle (tbl st') L /\ swallowed st' = swallowed st.
+  Proof.
+    induction xs as [|x xs IH]; intros ks st p L Hle Hcl; cbn.
+    - eexists; split; [reflexivity|split; [assumption|reflexivity]].
+    - destruct ks as [|k ks]; [eexists; split; [reflexivity|split; [assumption|reflexivity]]|].
+      cbn in Hcl. destruct Hcl as [[v [Ev Hv]] Hr].
+      destruct (tset_below c Hut Harr st p x k L v Hle Ev Hv) as [st1 [E1 [Hle1 Hs1]]].
+      rewrite E1. destruct (IH ks st1 p L Hle1 Hr) as [st' [E' [Hle' Hs']]].
+      exists st'. split; [assumption|split; [assumption|congruence]].
+  Qed.
+
+  Lemma set_many_flags_mono : forall xs ks st p st', set_many c st p xs ks = Ok st' ->
+    (changed st' = false -> changed st = false) /\ (swallowed st' = false -> swallowed st = false).
+  Proof.
+    induction xs as [|x xs IH]; intros ks st p st'; cbn.
+    - intros [= <-]; auto.
+    - destruct ks as [|k ks]; [intros [= <-]; auto|].
+      destruct (tset c st p x k) as [st1|e] eqn:E; [|discriminate].
+      intro H. destruct (IH _ _ _ _ H) as [A B]. destruct (tset_flags_mono c Hut Harr _ _ _ _ _ E) as [A' B'].
+      auto.
+  Qed.
+
   Hypothesis Hins : c_ins_changed c = true.
 
   Lemma set_loops_nochange : forall l st p st', set_loops c st p l = Ok st' ->
@@ -86,6 +171,22 @@ Section Finder.
       exists old. split; [assumption|]. apply nochange_kle; [discriminate|assumption].
   Qed.
 
+  Lemma set_many_nochange : forall xs ks st p st', set_many c st p xs ks = Ok st' ->
+    Forall (fun k => k <> None) ks ->
+    changed st' = false -> swallowed st' = false ->
+    st' = st /\ lhs_closed (tbl st) p xs ks.
+  Proof.
+    induction xs as [|x xs IH]; intros ks st p st'; cbn.
+    - intros [= <-] _ _ _. split; [reflexivity|destruct ks; exact I].
+    - destruct ks as [|k ks]; [intros [= <-] _ _ _; split; [reflexivity|exact I]|].
+      destruct (tset c st p x k) as [st1|e] eqn:E; [|discriminate].
+      intros H Hk Hc Hs. inversion Hk as [|? ? Hk1 Hk2]; subst.
+      destruct (IH _ _ _ _ H Hk2 Hc Hs) as [-> Hcl].
+      destruct (tset_nochange c Hut Harr Hins _ _ _ _ _ E Hc Hs) as [-> [old [Eo Ho]]].
+      split; [reflexivity|]. split; [|assumption].
+      exists old. split; [assumption|]. apply nochange_kle; assumption.
+  Qed.
+
   (* ---------------------------------------------------------------- one popped statement *)
 
   Lemma process_cases : forall st it st',
@@ -93,11 +194,11 @@ Section Finder.
     exists st1, set_loops c st (fst it) (b_loops (snd it)) = Ok st1 /\
       ((b_sub (snd it) = true /\ st' = st1 /\ process c st it = PDone st')
        \/ (b_sub (snd it) = false
-           /\ infer c (lookup_kim (tbl st) (tbl st1) (fst it)) (b_flat (snd it)) = IUnable
+           /\ eval_work c (lookup_kim (tbl st) (tbl st1) (fst it)) (snd it) = MUnable
            /\ st' = st1 /\ process c st it = PDefer st')
-       \/ (b_sub (snd it) = false /\ exists k,
-             infer c (lookup_kim (tbl st) (tbl st1) (fst it)) (b_flat (snd it)) = IOk k
-             /\ tset c st1 (fst it) (b_lhs (snd it)) k = Ok st' /\ process c st it = PProgress st')).
+       \/ (b_sub (snd it) = false /\ exists ks,
+             eval_work c (lookup_kim (tbl st) (tbl st1) (fst it)) (snd it) = MOk ks
+             /\ set_many c st1 (fst it) (b_lhs (snd it)) ks = Ok st' /\ process c st it = PProgress st')).
   Proof.
     intros st it st' H. unfold pstep, process in *.
     destruct (set_loops c st (fst it) (b_loops (snd it))) as [st1|e] eqn:E1.
@@ -106,9 +207,9 @@ Section Finder.
     destruct (b_sub (snd it)) eqn:Es.
     { left. destruct H as [H|[H|H]]; try discriminate. injection H as <-. auto. }
     right.
-    destruct (infer c (lookup_kim (tbl st) (tbl st1) (fst it)) (b_flat (snd it))) as [k| |e] eqn:Ei.
-    - right. split; [reflexivity|]. exists k. split; [reflexivity|].
-      destruct (tset c st1 (fst it) (b_lhs (snd it)) k) as [st2|e] eqn:E2.
+    destruct (eval_work c (lookup_kim (tbl st) (tbl st1) (fst it)) (snd it)) as [ks| |e] eqn:Ei.
+    - right. split; [reflexivity|]. exists ks. split; [reflexivity|].
+      destruct (set_many c st1 (fst it) (b_lhs (snd it)) ks) as [st2|e] eqn:E2.
       + destruct H as [H|[H|H]]; try discriminate. injection H as <-. auto.
       + destruct H as [H|[H|H]]; discriminate.
     - left. destruct H as [H|[H|H]]; try discriminate. injection H as <-. auto.
@@ -119,9 +220,9 @@ Section Finder.
   Proof.
     intros st it st' Hg Hwf H. destruct (process_cases _ _ _ H) as [st1 [E1 Hc]].
     assert (Hg1 : good c st1) by (eapply set_loops_good; eassumption).
-    destruct Hc as [[_ [-> _]]|[[_ [_ [-> _]]]|[_ [k [Ei [E2 _]]]]]]; try assumption.
-    eapply tset_good; try eassumption.
-    eapply infer_some; try eassumption. apply lookup_kim_nonone. apply Hg1.
+    destruct Hc as [[_ [-> _]]|[[_ [_ [-> _]]]|[_ [ks [Ei [E2 _]]]]]]; try assumption.
+    eapply set_many_good; try eassumption.
+    eapply eval_work_some; try eassumption. apply lookup_kim_nonone. apply Hg1.
   Qed.
 
   Lemma process_grows : forall st it st', good c st -> wf_item it -> pstep st it st' ->
@@ -130,8 +231,9 @@ Section Finder.
     intros st it st' Hg Hwf H. destruct (process_cases _ _ _ H) as [st1 [E1 Hc]].
     assert (Hg1 : good c st1) by (eapply set_loops_good; eassumption).
     assert (Hle1 : tle (tbl st) (tbl st1)) by (eapply set_loops_grows; eassumption).
-    destruct Hc as [[_ [-> _]]|[[_ [_ [-> _]]]|[_ [k [Ei [E2 _]]]]]]; try assumption.
-    eapply tle_trans; [exact Hle1|]. eapply tset_grows; eassumption.
+    destruct Hc as [[_ [-> _]]|[[_ [_ [-> _]]]|[_ [ks [Ei [E2 _]]]]]]; try assumption.
+    eapply tle_trans; [exact Hle1|]. eapply set_many_grows; try eassumption.
+    eapply eval_work_some; try eassumption. apply lookup_kim_nonone. apply Hg1.
   Qed.
 
   Lemma process_flags_mono : forall st it st', pstep st it st' ->
@@ -139,32 +241,8 @@ Section Finder.
   Proof.
     intros st it st' H. destruct (process_cases _ _ _ H) as [st1 [E1 Hc]].
     destruct (set_loops_flags_mono _ _ _ _ E1) as [A B].
-    destruct Hc as [[_ [-> _]]|[[_ [_ [-> _]]]|[_ [k [Ei [E2 _]]]]]]; auto.
-    destruct (tset_flags_mono c Hut Harr _ _ _ _ _ E2) as [A' B']. auto.
-  Qed.
-
-  (* below a closed table the statement cannot fail, and the table stays below *)
-  Lemma process_below : forall st it L, good c st -> canon c L -> tle (tbl st) L -> stmt_closed L it ->
-    exists st', pstep st it st' /\ tle (tbl st') L /\ swallowed st' = swallowed st.
-  Proof.
-    intros st it L Hg HcL Hle [Hloops Hlhs]. unfold pstep, process.
-    destruct (set_loops_below _ st (fst it) L Hle Hloops) as [st1 [E1 [Hle1 Hs1]]].
-    rewrite E1.
-    assert (Hg1 : good c st1) by (eapply set_loops_good; eassumption).
-    destruct (b_sub (snd it)) eqn:Es.
-    { exists st1. auto. }
-    destruct (Hlhs eq_refl) as [k' [v [Ei' [Ev Hkv]]]].
-    assert (Hlk : lk_le (lookup_kim (tbl st) (tbl st1) (fst it)) (lookup L (fst it))).
-    { apply (lookup_kim_le c); [apply Hg1|assumption|assumption]. }
-    pose proof (infer_mono c Hut Harr (lookup_kim (tbl st) (tbl st1) (fst it)) (lookup L (fst it))
-                  (b_flat (snd it)) Hlk) as Hm.
-    rewrite Ei' in Hm. cbn in Hm.
-    destruct Hm as [Hm|[k [Hm Hk]]].
-    - rewrite Hm. exists st1. auto.
-    - rewrite Hm.
-      destruct (tset_below c Hut Harr st1 (fst it) (b_lhs (snd it)) k L v Hle1 Ev) as [st2 [E2 [Hle2 Hs2]]].
-      + eapply kle_trans; eassumption.
-      + rewrite E2. exists st2. split; [auto|]. split; [assumption|congruence].
+    destruct Hc as [[_ [-> _]]|[[_ [_ [-> _]]]|[_ [ks [Ei [E2 _]]]]]]; auto.
+    destruct (set_many_flags_mono _ _ _ _ _ E2) as [A' B']. auto.
   Qed.
 
   Lemma process_nochange : forall st it st', pstep st it st' ->
@@ -172,18 +250,19 @@ Section Finder.
     st' = st /\ (process c st it = PDone st' \/ process c st it = PProgress st' -> stmt_closed (tbl st) it).
   Proof.
     intros st it st' H Hg Hwf Hc Hs. destruct (process_cases _ _ _ H) as [st1 [E1 Hcs]].
-    destruct Hcs as [[Esub [-> Hp]]|[[Esub [Ei [-> Hp]]]|[Esub [k [Ei [E2 Hp]]]]]].
+    destruct Hcs as [[Esub [-> Hp]]|[[Esub [Ei [-> Hp]]]|[Esub [ks [Ei [E2 Hp]]]]]].
     - destruct (set_loops_nochange _ _ _ _ E1 Hc Hs) as [-> Hcl].
       split; [reflexivity|]. intros _. split; [assumption|]. congruence.
     - destruct (set_loops_nochange _ _ _ _ E1 Hc Hs) as [-> Hcl].
       split; [reflexivity|]. rewrite Hp. intros [?|?]; discriminate.
-    - destruct (tset_nochange c Hut Harr Hins _ _ _ _ _ E2 Hc Hs) as [-> [old [Eo Ho]]].
+    - assert (Hg1 : good c st1) by (eapply set_loops_good; eassumption).
+      assert (Hks : Forall (fun k => k <> None) ks).
+      { eapply eval_work_some; try eassumption. apply lookup_kim_nonone. apply Hg1. }
+      destruct (set_many_nochange _ _ _ _ _ E2 Hks Hc Hs) as [-> Hlhs].
       destruct (set_loops_nochange _ _ _ _ E1 Hc Hs) as [-> Hcl].
       split; [reflexivity|]. intros _. split; [assumption|]. intros _.
-      exists k, old. split; [|split; [assumption|]].
-      + rewrite <- Ei. apply infer_ext. intro x. symmetry. apply lookup_kim_same.
-      + apply nochange_kle; [|assumption].
-        eapply infer_some; try eassumption. apply lookup_kim_nonone. apply Hg.
+      exists ks. split; [|assumption].
+      rewrite <- Ei. apply eval_work_ext. intro x. symmetry. apply lookup_kim_same.
   Qed.
 
   (* ---------------------------------------------------------------- the inner work-list loop *)
@@ -197,7 +276,8 @@ Section Finder.
     destruct q as [|it q'].
     - destruct b as [|x b'].
       + intros [= <-]; assumption.
-      + destruct pr; [|discriminate]. apply IH; assumption.
+      + destruct pr; [apply IH; assumption|].
+        destruct (c_restart c && changed st); [|discriminate]. intros [= <-]; assumption.
     - assert (Hit : In it items) by (apply Hq; left; reflexivity).
       assert (Hq' : incl q' items) by (intros y Hy; apply Hq; right; assumption).
       destruct (process c st it) as [e|st1|st1|st1] eqn:Ep; [discriminate| | |].
@@ -215,7 +295,8 @@ Section Finder.
     destruct q as [|it q'].
     - destruct b as [|x b'].
       + intros [= <-]; auto.
-      + destruct pr; [|discriminate]. apply IH.
+      + destruct pr; [apply IH|].
+        destruct (c_restart c && changed st); [|discriminate]. intros [= <-]; auto.
     - destruct (process c st it) as [e|st1|st1|st1] eqn:Ep; [discriminate| | |]; intro H;
         destruct (IH _ _ _ _ _ H) as [A B];
         destruct (process_flags_mono st it st1) as [A' B']; unfold pstep; auto.
@@ -230,10 +311,14 @@ Section Finder.
     destruct q as [|it q'].
     - destruct b as [|x b'].
       + intros [= <-] _ _. split; [reflexivity|]. intros it [].
-      + destruct pr; [|discriminate]. intros H Hc Hs.
-        destruct (IH _ _ _ _ _ Hg (fun it Hin => Hwf it (ltac:(rewrite app_nil_r in Hin; exact Hin))) H Hc Hs)
-          as [-> Hcl].
-        split; [reflexivity|]. intros it Hin. apply Hcl. rewrite app_nil_r. exact Hin.
+      + destruct pr.
+        * intros H Hc Hs.
+          destruct (IH _ _ _ _ _ Hg (fun it Hin => Hwf it (ltac:(rewrite app_nil_r in Hin; exact Hin))) H Hc Hs)
+            as [-> Hcl].
+          split; [reflexivity|]. intros it Hin. apply Hcl. rewrite app_nil_r. exact Hin.
+        * (* the restart exit leaves the change flag set *)
+          destruct (c_restart c && changed st) eqn:Er; [|discriminate].
+          intros [= <-] Hc _. apply andb_true_iff in Er. destruct Er as [_ Er]. congruence.
     - assert (Hwfit : wf_item it) by (apply Hwf; left; reflexivity).
       destruct (process c st it) as [e|st1|st1|st1] eqn:Ep; [discriminate| | |]; intros H Hc Hs;
         destruct (inner_flags_mono _ _ _ _ _ _ H) as [A B];
@@ -343,9 +428,39 @@ Section Finder.
         intros it Hin. apply Hcl. rewrite app_nil_r. apply in_rev in Hin. assumption.
   Qed.
 
+  (* ---------------------------------------------------------------- below a (weakly) closed table *)
+
+  (* this is where the registry has to be monotone *)
+  Hypothesis Hao : c_arr_only c = true.
+
+  (* below a weakly closed table the statement cannot fail, and the table stays below *)
+  Lemma process_below : forall st it L, good c st -> canon c L -> tle (tbl st) L -> stmt_wclosed L it ->
+    exists st', pstep st it st' /\ tle (tbl st') L /\ swallowed st' = swallowed st.
+  Proof.
+    intros st it L Hg HcL Hle [Hloops Hlhs]. unfold pstep, process.
+    destruct (set_loops_below _ st (fst it) L Hle Hloops) as [st1 [E1 [Hle1 Hs1]]].
+    rewrite E1.
+    assert (Hg1 : good c st1) by (eapply set_loops_good; eassumption).
+    destruct (b_sub (snd it)) eqn:Es.
+    { exists st1. auto. }
+    assert (Hlk : lk_le (lookup_kim (tbl st) (tbl st1) (fst it)) (lookup L (fst it))).
+    { apply (lookup_kim_le c); [apply Hg1|assumption|assumption]. }
+    pose proof (eval_work_mono c Hut Harr Hao (lookup_kim (tbl st) (tbl st1) (fst it)) (lookup L (fst it))
+                  (snd it) Hlk) as Hm.
+    destruct (Hlhs eq_refl) as [Eu|[ks' [Ei' Hcl]]].
+    - rewrite Eu in Hm. cbn in Hm. rewrite Hm. exists st1. auto.
+    - rewrite Ei' in Hm. cbn in Hm.
+      destruct Hm as [Hm|[ks [Hm Hk]]].
+      + rewrite Hm. exists st1. auto.
+      + rewrite Hm.
+        destruct (set_many_below (b_lhs (snd it)) ks st1 (fst it) L Hle1) as [st2 [E2 [Hle2 Hs2]]].
+        * eapply lhs_closed_le; eassumption.
+        * rewrite E2. exists st2. split; [auto|]. split; [assumption|congruence].
+  Qed.
+
   Lemma run_below : forall fuel st all L T sw,
     good c st -> (forall it, In it all -> wf_item it) ->
-    canon c L -> tle (tbl st) L -> (forall it, In it all -> stmt_closed L it) ->
+    canon c L -> tle (tbl st) L -> (forall it, In it all -> stmt_wclosed L it) ->
     outer c fuel st all = OTable T sw -> tle T L.
   Proof.
     intros fuel st all L T sw Hg Hwf HcL Hle Hcl H.
@@ -383,7 +498,7 @@ Section Finder.
       eapply IH; [|exact H]. eapply set_loops_good; eassumption.
   Qed.
 
-  Lemma prepass_below : forall l st L, tle (tbl st) L -> (forall it, In it l -> stmt_closed L it) ->
+  Lemma prepass_below : forall l st L, tle (tbl st) L -> (forall it, In it l -> stmt_wclosed L it) ->
     exists st', prepass c st l = Ok st' /\ tle (tbl st') L /\ swallowed st' = swallowed st.
   Proof.
     induction l as [|it r IH]; intros st L Hle Hcl; cbn.
@@ -409,7 +524,7 @@ Section Finder.
     - intros [= <-]; apply tle_refl.
   Qed.
 
-  Lemma start_below : forall l st L, tle (tbl st) L -> (forall it, In it l -> stmt_closed L it) ->
+  Lemma start_below : forall l st L, tle (tbl st) L -> (forall it, In it l -> stmt_wclosed L it) ->
     exists st', start st l = Ok st' /\ tle (tbl st') L /\ swallowed st' = swallowed st.
   Proof.
     unfold start. intros l st L Hle Hcl. destruct (c_loops_prepass c).
@@ -447,10 +562,11 @@ Section Finder.
     destruct (run_closed _ _ _ _ Hg2 Hwf' H2) as [Hc2 [Hle2 Hcl2]].
     assert (Hf1 : tle (tbl stf) T) by exact (tle_trans _ _ _ (start_grows _ _ _ Hgf E1) Hle1).
     assert (Hf2 : tle (tbl stf) T') by exact (tle_trans _ _ _ (start_grows _ _ _ Hgf E2) Hle2).
-    assert (Hcl1' : forall it, In it all' -> stmt_closed T it).
-    { intros it Hin. apply Hcl1. eapply Permutation_in; [apply Permutation_sym; exact Hperm|exact Hin]. }
-    assert (Hcl2' : forall it, In it all -> stmt_closed T' it).
-    { intros it Hin. apply Hcl2. eapply Permutation_in; eassumption. }
+    assert (Hcl1' : forall it, In it all' -> stmt_wclosed T it).
+    { intros it Hin. apply closed_wclosed. apply Hcl1.
+      eapply Permutation_in; [apply Permutation_sym; exact Hperm|exact Hin]. }
+    assert (Hcl2' : forall it, In it all -> stmt_wclosed T' it).
+    { intros it Hin. apply closed_wclosed. apply Hcl2. eapply Permutation_in; eassumption. }
     apply tle_antisym.
     - destruct (start_below all stf T' Hf2 Hcl2') as [s [Es [Hles _]]].
       rewrite E1 in Es. injection Es as <-.
